@@ -45,7 +45,9 @@ def build_model(name, dt, continuous=False):
     if name.startswith("generic:"):
         return copy.deepcopy(dict(generic_specs())[name[8:]])
     if name == "combined":
-        spec = simspace.combined_spec(dt, v=0.3, dur=1.0, tj=0.2, pa=0.3, d=0.01, br=5.0, prog=True)
+        # the overwritten parameters have time-varying data in every population (two data years): a scenario on one population must leave the
+        # ramp of the other populations alone
+        spec = simspace.combined_spec(dt, v={"t": [S0, S0 + 2.0], "v": [0.3, 0.12]}, dur=1.0, tj=0.2, pa=0.3, d=0.01, br=5.0, prog=True)
         spec["progs"]["instr"] = dict(start=S0)
     elif name == "agg":
         spec = next(s for s in simspace.pops("quick") if s["sim"][2] == dt and any(p["name"] == "foi" for p in s["pars"])) if dt in simspace.DTS["quick"] else None
@@ -59,9 +61,9 @@ def build_model(name, dt, continuous=False):
 
 
 KINDS = {
-    "combined": ["prog_start", "budget", "capacity", "coverage", "capacity_continuous", "budget_continuous", "stop", "extend_scen:vr:linear", "extend_scen:vr:previous", "extend_scen:pb:linear"] + [f"scen:{t}:{i}" for t in ("vr", "pb", "pa", "br", "age") for i in ("linear", "previous")] + [f"scen2:{t}:{i}" for t in ("pb", "vr") for i in ("linear", "previous")] + ["extend"],
+    "combined": ["prog_start", "budget", "capacity", "coverage", "budget_scalar_insert", "capacity_scalar_insert", "coverage_scalar_insert", "capacity_continuous", "budget_continuous", "stop", "extend_scen:vr:linear", "extend_scen:vr:previous", "extend_scen:pb:linear"] + [f"scen:{t}:{i}" for t in ("vr", "pb", "pa", "br", "age") for i in ("linear", "previous")] + [f"scen2:{t}:{i}" for t in ("pb", "vr") for i in ("linear", "previous")] + ["extend"],
     "agg": [f"scen:{t}:{i}" for t in ("mix", "rec") for i in ("linear", "previous")] + [f"scen2:{t}:{i}" for t in ("inf", "foi") for i in ("linear", "previous")] + ["extend"],
-    "state": ["prog_start", "budget", "capacity", "coverage", "stop", "extend_scen:p1:linear", "extend_scen:drv:linear"] + [f"scen:{t}:{i}" for t in ("p1", "drv", "p2") for i in ("linear", "previous")] + ["extend"],
+    "state": ["prog_start", "budget", "capacity", "coverage", "budget_scalar_insert", "stop", "extend_scen:p1:linear", "extend_scen:drv:linear"] + [f"scen:{t}:{i}" for t in ("p1", "drv", "p2") for i in ("linear", "previous")] + ["extend"],
 }
 
 
@@ -301,6 +303,14 @@ def run_case(case):
             if kind == "budget":
                 b0 = instr(start_year=t[0], alloc={first: at.TimeSeries([t[0] - 2], [s0])})
                 b1 = instr(start_year=t[0], alloc={first: at.TimeSeries([t[0] - 2, Y], [s0, 5 * s0])})
+            elif kind in ("budget_scalar_insert", "capacity_scalar_insert", "coverage_scalar_insert"):
+                # the overwrite is given as a plain number (in force from the start year) and the later change is inserted into the instructions afterwards
+                if Y <= t[0]:
+                    continue
+                which, v0, v1 = dict(budget=("alloc", s0, 5 * s0), capacity=("capacity", 40.0, 400.0), coverage=("coverage", 0.2, 0.9))[kind.split("_")[0]]
+                b0 = instr(start_year=t[0], **{which: {first: v0}})
+                b1 = instr(start_year=t[0], **{which: {first: v0}})
+                getattr(b1, which)[first].insert(Y, v1)
             elif kind == "capacity":
                 b0 = instr(start_year=t[0], capacity={first: at.TimeSeries([t[0] - 2], [40.0])})
                 b1 = instr(start_year=t[0], capacity={first: at.TimeSeries([t[0] - 2, Y], [40.0, 400.0])})
